@@ -7,7 +7,7 @@ from fvsym.rt import *  # noqa
 BOUNDS = {
     "quick": "every operator the Payload docstring lists (+ - * / // << & |, six comparisons, += -= *= /= and <<=) x operand kinds box-box, box-scalar, "
              "scalar-box, element-element, element-scalar, scalar-element with two symbolic integers (right operand of << in 0..3, of / and // non-zero, "
-             "& and | on 0..15); fiber + and * on 0..2 x 0..2 stored elements, fiber-scalar over a shape <= 3, each in-place form against its value-returning twin",
+             "& and | on 0..15); fiber + and * on 0..2 x 0..2 stored elements, fiber-scalar over a shape <= 3, each in-place form against its value-returning twin; fiber + boxed scalar (no box handed out twice), scalar addition before and after a shapeless fiber grows",
     "thorough": "fiber-fiber up to 3x3, shape <= 4",
 }
 OUTSIDE = "float operands (A1) and the value of true division (/ and /= run on concrete operands only: dispatch and box identity, no quantified claim); operators on boxes holding tuples or strings"
